@@ -110,6 +110,10 @@ def run(ctx):
     if not m.violated or m.violated == "error":
         ctx.machinery("TLC mutant TM_softexit (sys.exit instead of os._exit) not killed")
     ctx.note(f"TLC Termination/TM: {r.generated} states over all environments x time-outs x both halves; mutant TM_softexit killed by {m.violated}")
+    cbm = tlc.run("Termination", "TM_cbraises_unguarded.cfg", scratch=ctx.scratch, timeout=600, parse_trace=False)
+    if cbm.violated != "WorkerGoneInTime":
+        ctx.machinery(f"TLC mutant TM_cbraises_unguarded (an endmarker callback's exception ends the receiver thread before the ladder) not killed ({cbm.violated})")
+    ctx.note("TLC Termination/TM_cbraises_unguarded: a receiver thread that dies on a raising endmarker callback never starts the ladder - killed by WorkerGoneInTime")
     lg = tlc.run("Termination", "TM_linger.cfg", scratch=ctx.scratch, timeout=600, parse_trace=False)
     if lg.violated != "WorkerGoneInTime":
         ctx.machinery(f"TLC Termination/TM_linger: expected the exit ladder not to cover a lingering thread / exit hook of the remote code, got {lg.violated}")
